@@ -2,6 +2,7 @@ package rig
 
 import (
 	"sort"
+	"strings"
 	"sync"
 )
 
@@ -9,11 +10,12 @@ import (
 // goroutine parked in a gate counts as *paused* for the quiescence monitor: the
 // harness, not the SDK, decides when it continues.
 type Gate struct {
-	mu      sync.Mutex
-	cond    *sync.Cond
-	open    map[string]bool
-	waiting map[string]int
-	allOpen bool
+	mu       sync.Mutex
+	cond     *sync.Cond
+	open     map[string]bool
+	waiting  map[string]int
+	allOpen  bool
+	prefixes []string
 }
 
 func NewGate() *Gate {
@@ -23,13 +25,34 @@ func NewGate() *Gate {
 }
 
 // Wait blocks until key is opened.
-func (g *Gate) Wait(key string) { g.wait(key) }
+func (g *Gate) Wait(key string) {
+	if strings.HasPrefix(key, SlowHandlerGate) {
+		g.parkSlow(key)
+		return
+	}
+	g.wait(key)
+}
+
+// parkSlow is wait under another name: the quiescence monitor counts a goroutine in wait as parked by the harness
+// (something the harness will release at a quiet moment), and one in parkSlow as blocked - it goes on only when the
+// session's calls are over, so a session that cannot finish its calls while a handler is parked here is dead.
+//
+//go:noinline
+func (g *Gate) parkSlow(key string) {
+	g.mu.Lock()
+	g.waiting[key]++
+	for !g.open[key] && !g.allOpen && !g.prefixOpen(key) {
+		g.cond.Wait()
+	}
+	g.waiting[key]--
+	g.mu.Unlock()
+}
 
 //go:noinline
 func (g *Gate) wait(key string) {
 	g.mu.Lock()
 	g.waiting[key]++
-	for !g.open[key] && !g.allOpen {
+	for !g.open[key] && !g.allOpen && !g.prefixOpen(key) {
 		g.cond.Wait()
 	}
 	g.waiting[key]--
@@ -56,10 +79,30 @@ func (g *Gate) Waiting() []string {
 	defer g.mu.Unlock()
 	var out []string
 	for k, n := range g.waiting {
+		if strings.HasPrefix(k, SlowHandlerGate) {
+			continue // not a slow step: see OpenPrefix
+		}
 		if n > 0 && !g.open[k] && !g.allOpen {
 			out = append(out, k)
 		}
 	}
 	sort.Strings(out)
 	return out
+}
+
+// OpenPrefix opens every gate whose key starts with prefix, for goroutines parked there now and for later ones.
+func (g *Gate) OpenPrefix(prefix string) {
+	g.mu.Lock()
+	g.prefixes = append(g.prefixes, prefix)
+	g.cond.Broadcast()
+	g.mu.Unlock()
+}
+
+func (g *Gate) prefixOpen(key string) bool {
+	for _, p := range g.prefixes {
+		if strings.HasPrefix(key, p) {
+			return true
+		}
+	}
+	return false
 }
